@@ -11,13 +11,14 @@ class C02(Prop):
                   "fuel exhaustion — for Deb822::{from_str, from_str_relaxed, read, read_relaxed} and Paragraph::from_str (also: at most 3 errors "
                   "per character, nesting depth <= 4), lossy::{Deb822, Paragraph}::from_str, lossless Relations::{from_str, parse_relaxed x2}, "
                   "Entry::from_str, Relation::from_str, strip_pgp_signature, the seven keyword enumerations (tables regenerated from the sources) "
-                  "and ParsedVcs::from_str. PARTIAL: (a) wall-clock time, real stack and allocator are measured, not proved: the totality stream "
+                  "ParsedVcs::from_str, lossy::{Relation, Relations}::from_str (for any version parser) and the nine lossy typed documents read "
+                  "through the derive macro (Control, copyright, apt Release/Source/Package, removal, buildinfo, DEP-3, APT sources; for any "
+                  "external field parsers). PARTIAL: (a) wall-clock time, real stack and allocator are measured, not proved: the totality stream "
                   "runs all ~58 public entry points on every case under a supervisor (panic / hang / abort are violations) and totality-scale "
                   "times every entry point on adversarial seeds of growing size (worse-than-quadratic growth or > 5 s is a violation); (b) the "
-                  "entry points that go through the derive macro or an external parser (Control, apt, changes, buildinfo, removal, copyright "
-                  "from_str, DEP-3, APT sources, lossy relations, checksum/record FromStr) are decided by the stream (outcome classes of the "
-                  "modelled ones are also compared with their models).")
-    level_note = ("Models: the cones of C01, C06, C09, C17, C18, C19 (their own notes apply). Trusted in addition: the harness supervisor "
+                  "external parsers themselves (url, chrono, debversion, regex) and the remaining small FromStr impls (checksum/record types, "
+                  "lossless typed wrappers, which only wrap Deb822::from_str) are decided by the stream.")
+    level_note = ("Models: the cones of C01, C06, C09, C14, C17, C18, C19, C20 (their own notes apply). Trusted in addition: the harness supervisor "
                   "(per-case time budget VERIF_CASE_MS, kills and restarts the worker), timing thresholds of totality-scale.")
     rule = ("totality: every one of the ~58 public text-parsing entry points of the five crates on the same input: hand-written snippets of "
             "every file kind with all their truncations, CRLF / trailing-CR / non-ASCII / upper-case variants; every string up to length n over "
